@@ -302,8 +302,10 @@ func lexCase(set lexOpSet, src string, gen string) Case {
 	}
 	defer guardEnd()
 	c := Case{
-		Human:   "lex[" + set.name + "] " + strconv.Quote(src),
-		Req:     sxList("lex", encOps(set.ops), sxStr(src)),
+		Human: "lex[" + set.name + "] " + strconv.Quote(src),
+		// the lexer works on []rune(src): a malformed byte IS the rune U+FFFD; the model (whose
+		// inputs are Unicode strings) is asked about the text the lexer sees
+		Req:     sxList("lex", encOps(set.ops), sxStr(string([]rune(src)))),
 		Tags:    []string{"gen:" + gen, "ops:" + set.name},
 		Nontriv: len([]rune(src)) >= 2,
 	}
@@ -778,6 +780,19 @@ func lexHistoryCases() []Case {
 	return cs
 }
 
+// malformed UTF-8 inside and between tokens (each bad byte is one rune, U+FFFD, for the lexer)
+func lexInvalidUTF8Sources() []string {
+	bad := []string{"\xff", "\xc0", "\xe4\xb8", "\xf0\x9f\x98", "\x80", "\xed\xa0\x80"}
+	var out []string
+	for _, b := range bad {
+		out = append(out,
+			"`"+b+"` + abc", `"`+b+`" + abc <= 0x1F`, "'"+b+"' - 1", `"a`+b+`b" "c" x`, "`x"+b+b+"` `y` z",
+			"a"+b+" + 1", b+" a", "a "+b, `"x" `+b+` "y"`, "1"+b+"2", "`"+b+"`\n  next.line(1)", `"é`+b+`中" == s1 && true`,
+			"'"+b+b+b+"' < t1 ? 1 : 2")
+	}
+	return out
+}
+
 // regexCase: Go's regexp on one of the lexer's patterns against the formal semantics of that
 // pattern in the model (Spec/Regex: reference matcher `Re.find`, which the hand-written
 // recognisers are proved equal to).  Index 0..9: literalForms; 10: keywordPostfix; 11: idReg.
@@ -836,7 +851,7 @@ func regexCases(r *rand.Rand, n int) []Case {
 func init() {
 	register(&Stream{
 		Name: "lex",
-		Rule: "lexer.NewLexer(ops).Lex(src) vs the Lean model, token kinds, lexemes and positions. Inputs: a fixed corpus x all operator sets; five exhaustive families x operator sets, each uniformly sampled down to n/5 when its space is larger: all strings up to length 3 (thorough: 5) over a 19-character mixed alphabet (operator characters, letters incl. é, digits, . e x, three quotes, backslash, space, newline), number-ish strings (<=4/6 over 01.eE+-xbof8), quoted strings (a double quote followed by <=4/7 over double quote, backslash, u n a 0 F g / and newline), raw/time strings (<=4/6), words (<=4/5 over true/and letters, _ 1 . space 非); n random sources (half of them from well-formed fragments only) glued from token-ish fragments (six number forms and near misses, strings/raw strings/times with good and bad escapes, identifiers incl. non-ASCII, registered operators glued to words, true/false + letters, ./? + operator characters, stray characters, random code points up to U+32000, Unicode white space) with one-rune mutations. Plus the regular expressions themselves: Go's regexp on each of the ten literal patterns, keywordPostfix and idReg against the formal semantics (reference matcher) of the model, on literal-ish strings. Plus operator-table histories (tables used one after the other in one process: the same characters split differently, permuted, grown and shrunk, the same kinds with other fixities; two rounds) and long tokens / long inputs (every literal form, identifiers, operator and white-space runs, bracket nests and token sequences of 31..1000 runes, thorough: up to 70000). 13 operator sets: built-in, empty, prefix-overlapping, ./?-prefixed, identifier-like, all fixities, byte-vs-rune lengths, punctuation-prefixed, literal-like, nested, every operator character, mixed. Non-trivial = at least 2 runes; distinct = distinct request line.",
+		Rule: "lexer.NewLexer(ops).Lex(src) vs the Lean model, token kinds, lexemes and positions. Inputs: a fixed corpus x all operator sets; five exhaustive families x operator sets, each uniformly sampled down to n/5 when its space is larger: all strings up to length 3 (thorough: 5) over a 19-character mixed alphabet (operator characters, letters incl. é, digits, . e x, three quotes, backslash, space, newline), number-ish strings (<=4/6 over 01.eE+-xbof8), quoted strings (a double quote followed by <=4/7 over double quote, backslash, u n a 0 F g / and newline), raw/time strings (<=4/6), words (<=4/5 over true/and letters, _ 1 . space 非); n random sources (half of them from well-formed fragments only) glued from token-ish fragments (six number forms and near misses, strings/raw strings/times with good and bad escapes, identifiers incl. non-ASCII, registered operators glued to words, true/false + letters, ./? + operator characters, stray characters, random code points up to U+32000, Unicode white space) with one-rune mutations. Plus malformed UTF-8 inside and between tokens (the lexer sees U+FFFD). Plus the regular expressions themselves: Go's regexp on each of the ten literal patterns, keywordPostfix and idReg against the formal semantics (reference matcher) of the model, on literal-ish strings. Plus operator-table histories (tables used one after the other in one process: the same characters split differently, permuted, grown and shrunk, the same kinds with other fixities; two rounds) and long tokens / long inputs (every literal form, identifiers, operator and white-space runs, bracket nests and token sequences of 31..1000 runes, thorough: up to 70000). 13 operator sets: built-in, empty, prefix-overlapping, ./?-prefixed, identifier-like, all fixities, byte-vs-rune lengths, punctuation-prefixed, literal-like, nested, every operator character, mixed. Non-trivial = at least 2 runes; distinct = distinct request line.",
 		Gen: func(r *rand.Rand, n int, thorough bool) []Case {
 			sets := lexOpSets()
 			var cs []Case
@@ -846,6 +861,10 @@ func init() {
 				}
 			}
 			cs = append(cs, lexHistoryCases()...)
+			for i, src := range lexInvalidUTF8Sources() {
+				cs = append(cs, lexCase(sets[0], src, "invalid-utf8"))
+				cs = append(cs, lexCase(sets[1+i%(len(sets)-1)], src, "invalid-utf8"))
+			}
 			cs = append(cs, regexCases(r, n/2+200)...)
 			for i, src := range lexLongSources(r, thorough) {
 				cs = append(cs, lexCase(sets[i%len(sets)], src, "long"))
